@@ -8,6 +8,7 @@
   `byweekday` = flat pairs `[wd,n,wd,n,…]` with `n = 0` for a plain weekday.
 
     rrule.construct <args>                    → ok <normalised rule>            | err Kind
+    rrule.orig <args>                         → ok <args wire of origArgs: what replace() passes again> | err Kind
     rrule.iter <args> <n> <maxperiods>        → ok <status> <item>*             | err Kind (constructor)
         status: more | stop_count | stop_until | stop_maxyear | err_<Kind> | fuel ; item = y.m.d.h.m.s
     rrule.spec <args> <lo> <hi> <max>         → ok <done 0|1> <item>*     (Spec.RRule.window, ordinals lo..hi)
@@ -87,6 +88,16 @@ def showRule (r : Rule) : String :=
     showOL r.byhour, showOL r.byminute, showOL r.bysecond,
     (match r.timeset with | none => "-" | some l => showIntList (l.flatMap fun t => [t.1, t.2.1, t.2.2]))]
 
+/-- the 17-token wire form of an argument set (inverse of `parseArgs?`) -/
+def showArgs (a : Args) : String :=
+  let dt (t : DT) := showIntList [t.y, t.m, t.d, t.hh, t.mm, t.ss, t.us]
+  " ".intercalate [toString a.freq, toString a.interval, showOptInt a.wkst, showOptInt a.count,
+    (match a.untilDT with | none => "-" | some u => dt u), dt a.dtstart, toString a.tz,
+    showOL a.bysetpos, showOL a.bymonth, showOL a.bymonthday, showOL a.byyearday, showOL a.byeaster,
+    showOL a.byweekno,
+    (match a.byweekday with | none => "-" | some l => showIntList (l.flatMap fun p => [p.1, p.2])),
+    showOL a.byhour, showOL a.byminute, showOL a.bysecond]
+
 def statusName : Status → String
   | .countReached => "stop_count" | .untilPassed => "stop_until" | .maxYear => "stop_maxyear"
   | .error e => "err_" ++ e.name | .outOfFuel => "fuel"
@@ -137,6 +148,10 @@ def handle (op : String) (args : List String) : Option String :=
     let rest := args.drop 17
     match op, rest.mapM parseInt? with
     | "rrule.construct", some [] => some (Py.showR showRule (construct a))
+    | "rrule.orig", some [] =>
+        some (match construct a with
+          | .error e => "err " ++ e.name
+          | .ok r => "ok " ++ showArgs (origArgs a r))
     | "rrule.iter", some [n, fuel] => some (iterN a n.toNat fuel.toNat)
     | "rrule.spec", some [lo, hi, mx] =>
         let w := Spec.RRule.window a lo hi mx.toNat
